@@ -2,6 +2,12 @@
 and the signature function that labels a failing case for known_findings.jsonl."""
 
 PROPS = {
+    'C09': {
+        'families': [('c09', 10, 120)],
+        'rule': 'per generated archive: the archive and 8 structure-aware mutations of it (huge / non-minimal varints spliced over length prefixes, 8-byte header and index length fields overwritten with 0, 1, 2^40, 2^63-1, 2^63, 2^64-1, file length +/- 1, truncation, byte noise, appended bytes, raw random, cut-and-splice) x {default limits, small random MaxAllowedHeaderSize/SectionSize} x ZeroLengthSectionAsEOF x 15 parsing entry points (BlockReader Next and SkipNext over seekable and plain sources, Inspect full/quick, GenerateIndex seekable/plain, ReadOrGenerateIndex, index.ReadFrom on mutated index bytes + ForEach, blockstore.NewReadOnly + all queries, storage.OpenReadable + queries, ReplaceRootsInFile, ExtractV1File, root CarReader), each under recover() with the bytes allocated (runtime.MemStats.TotalAlloc) and the wall time measured; plus header/section limits probed at max-1, max, max+1; result classes compared with the model where one exists; distinct = distinct script text',
+        'trusted': ['runtime.MemStats.TotalAlloc as the allocation measure; a fatal out-of-memory or a hang of the harness process is reported by the orchestrator as a crash of the family (replay = the case file written before each call)'],
+        'assumptions': ['allocation bound checked: MaxAllowedHeaderSize + MaxAllowedSectionSize + 4096 * len(input) + 4 MiB per call'],
+    },
     'C07': {
         'families': [('c07', 60, 600)],
         'rule': 'generated archives in four shapes (CARv1 with optional null padding, CARv2 with embedded index written with/without identity CIDs and with data padding, hand-laid index-less CARv2) x {blockstore.NewReadOnly with embedded/generated index, with a supplied car-index-sorted or car-multihash-index-sorted index; storage.OpenReadable} x {UseWholeCIDs, StoreIdentityCIDs, ZeroLengthSectionAsEOF}; Roots, AllKeysChan and, for every present CID, codec/hash-code variants and absent CIDs: Has, Get (+GetStream), GetSize — compared with the model and with a reference scan of the block list; distinct = distinct script text',
@@ -138,6 +144,8 @@ def signature(pid, script, I, S):
         if toks.get('kind') == 'size' and _cid_is_identity(toks.get('c', '')):
             return 'C07/getsize-identity-ignores-store-identity-option'
         return 'C07/' + fam + '-' + toks.get('kind', 'open') + '-differs-from-scan'
+    if pid == 'C09':
+        return 'C09/' + toks.get('ep', '?') + '-panic-alloc-or-class'
     if pid == 'C20':
         return 'C20/' + fam + '-differs-from-lazy-direct-writer'
     if pid == 'C06':
